@@ -19,6 +19,7 @@ import M17.Gen.Taps
 import M17.Spec.Tx
 import M17.Model.Mod
 import M17.Model.Dcd
+import M17.Model.App
 
 open M17
 
@@ -234,6 +235,8 @@ def handle (st : DrvState) (op : String) (a : List Int) : DrvState × String :=
       let r := Llr.llr tbl v
       [r.1, r.2]
     (st, joinInts outs)
+  | "app_lsf", disp :: lsf =>
+    (st, "1 | " ++ (App.report (disp != 0) (lsf.map Int.toNat)).replace "\n" "\\n")
   | "dcd_seq", lvl :: trig :: toks =>
     (st, dcdSeq lvl trig toks)
   | "fir", d :: toks =>
